@@ -426,6 +426,9 @@ static int apply_damage(struct vf_rng *r, int kind, int v, const struct dg_cfg *
 				vf_bytes(r, b, 188);
 				b[0] = 0x47; b[1] = (uint8_t)((b[1] & 0x60) | (pid >> 8)); b[2] = (uint8_t)pid; b[3] = (uint8_t)(0x10 | (k & 15));
 				if (vf_chance(r, 1, 4)) { b[1] |= 0x40; b[4] = 0; b[5] = 0; b[6] = 1; b[7] = 0xBD; }
+				/* another programme may be scrambled, carry adaptation fields of any length, no payload at all,
+				 * or count as it likes: none of that is the business of the filtered PID */
+				if (vf_chance(r, 1, 2)) b[3] = (uint8_t)vf_u32(r);
 				insert_item(at + k, b, 188, 1);
 			}
 			snprintf(desc, dl, "%d TS packets with PID 0x%x inserted %s packet %d", cnt, pid, at == l + 1 ? "after" : "inside", v);
@@ -1038,7 +1041,7 @@ static int run_case(struct vf_rng *r, long idx)
 {
 	struct dg_cfg c;
 	vbi_dvb_demux *dx = NULL, *dxc = NULL;
-	int type, nframes, dmg = D_NONE, sync_risk = 0, nparts, pi, big, from = -1;
+	int type, nframes, dmg = D_NONE, sync_risk = 0, nparts, pi, big, from = -1, between_lo = -1, between_hi = -1;
 	char desc[300] = "";
 	size_t dmg_end = 0;
 	(void)idx;
@@ -1102,7 +1105,21 @@ static int run_case(struct vf_rng *r, long idx)
 				sync_risk = apply_damage(r, kind, v, &c, desc, sizeof desc);
 				if (desc[0]) dmg = kind;
 			}
-			if (dmg != D_NONE && vf_chance(r, 1, 6)) {
+			if (dmg == D_FOREIGN && c.ts && v + 4 <= n_sent - 2 && vf_chance(r, 2, 3)) {
+				/* Packets of another PID a second time, three or more frames later.  The frames in between are
+				 * intact packets following the first damage and not the first frame after it, and they were sent
+				 * completely before the second one: they must all be delivered (checked below, between_lo..hi). */
+				char d2[200];
+				int v2 = vf_range(r, v + 3, n_sent - 3 > v + 3 ? n_sent - 3 : v + 3);
+				d2[0] = 0;
+				apply_damage(r, D_FOREIGN, v2, &c, d2, sizeof d2);
+				if (d2[0]) {
+					size_t dl0 = strlen(desc);
+					between_lo = v + 2; between_hi = v2 - 1;
+					snprintf(desc + dl0, sizeof desc - dl0, "; and %s", d2);
+					vf_count("foreign_pid_packets_at_two_places", 1);
+				}
+			} else if (dmg != D_NONE && vf_chance(r, 1, 6)) {
 				/* a second, earlier fault */
 				char d2[200];
 				int v2 = vf_range(r, 0, 1);
@@ -1143,6 +1160,23 @@ static int run_case(struct vf_rng *r, long idx)
 	vf_count("frames_delivered_single_call", n_ref);
 	if (ref_overflow) { vf_count("reference_overflow", 1); n_ref = 0; goto done; }
 
+	if (between_lo >= 0 && between_lo <= between_hi) {
+		int i, k, m, pos = 0;
+		for (i = between_lo; i <= between_hi && !vf_failed(); i++) {
+			const struct sent *sf = &sent[i];
+			int found = -1;
+			for (m = pos; m < n_ref && found < 0; m++) {
+				if (ref[m].n != sf->n || ref[m].pts != sf->pts) continue;
+				for (k = 0; k < sf->n; k++) if (!same_rline(&ref[m].l[k], &sf->l[k])) break;
+				if (k == sf->n) found = m;
+			}
+			vf_count("frames_between_two_damages_demanded", 1);
+			if (found < 0)
+				vf_fail("model:C07:recovery:frame-lost-between-damages", "%s; sent frame %d (%d lines, PTS 0x%llx) lies between the two places, two or more frames after the first and completely before the second, but is not delivered (%d frames sent, %d delivered)",
+					desc, i, sf->n, (unsigned long long)sf->pts, n_sent, n_ref);
+			else pos = found + 1;
+		}
+	}
 	if (type == T_DAMAGE && dmg != D_NONE) {
 		from = recovery_from(&c, sync_risk, &dmg_end);
 		if (from >= 0) check_recovery(&c, from, dmg_name[dmg], desc);
